@@ -5,6 +5,15 @@ NOTES = ("Machine-checked proof in Lean 4 about a hand-written model that mirror
          "implementation's traces. See DESIGN.md.")
 NOT_YET = {}
 TEXT = {
+ "C02": {
+  "level": "Theorem C02_holds: for every history the C02 monitor accepts the model trace - after a reported or crash-detected boot failure of n (same release, "
+           "state files not damaged) n is banned on disk and in none of the three slots after every later operation, queries never report it, an update offered n "
+           "requests no download and answers 'bad patch'/'no update', a check answers false. Proved by an invariant (BanD) preserved by every patch-manager function, "
+           "every critical section and every API call (step_ban), lifted by induction over histories. The same monitor runs on the real library's traces.",
+  "design_ref": "DESIGN.md section 3, C02",
+  "note": "Lean kernel; model/code correspondence sampled by this run's campaign; process death only at call boundaries here (inside calls: C04).",
+  "technique": "Lean 4 theorem (inductive invariant over all histories) + differential correspondence check",
+ },
  "C14": {
   "level": "Theorem C14_holds: for every history (any call order, damage, restarts, parameters) the C14 monitor accepts the model trace; "
            "init_configured: a second init returns false and leaves the whole world unchanged for every world. The same monitor is evaluated on "
